@@ -32,7 +32,7 @@ structure St where
   ori : Option Rat      -- stored `orientation` attribute, if the state class has one and it is set
   vel : Option Rat      -- `velocity`
   velY : Option Rat     -- `velocity_y`
-  deriving Repr
+  deriving Repr, DecidableEq
 
 def GState.hasPos (g : GState) : Bool := g.pos.isSome
 def St.hasPos (s : St) : Bool := s.pos.isSome
@@ -83,6 +83,141 @@ def isReached (F : Fns) (τ ε : Rat) : List GState → St → Res Bool
       match isReached F τ ε rest s with
       | .error e => .error e
       | .ok b' => .ok (b || b')
+
+/-! ### the code path of `is_reached` step by step (goal.py:99-124, 136-155, 199-227) — tied to the source by translation (CRProps/T08)
+
+  `is_reached` does not compute `fieldsOk` / `oriOf` / `velOf` outright: it builds the two SETS of attribute names
+  (`used_attributes`), lets `_harmonize_state_types` rewrite the state and its set, tests `issubset`, and then reads the
+  rewritten state. The definitions below follow that path; `C08_harmonize_spec` / `C08_isReachedSteps_eq` (CRProps/C08.lean)
+  prove it is `reachedOne` / `isReached`. -/
+
+/-- Attribute names the check looks at (all other state attributes are `other`: they pass through untouched). -/
+inductive Fld where
+  | time_step | position | orientation | velocity | velocity_y | other (name : String)
+  deriving DecidableEq, Repr
+
+/-- `set(goal_state.used_attributes)`: `time_step` is mandatory, the others as far as they are set. -/
+def GState.usedAttrs (g : GState) : List Fld :=
+  [Fld.time_step] ++ (if g.pos.isSome then [Fld.position] else []) ++ (if g.ori.isSome then [Fld.orientation] else []) ++
+    (if g.vel.isSome then [Fld.velocity] else [])
+
+/-- `set(state.used_attributes)` restricted to the five attributes the check can look at. -/
+def St.usedAttrs (s : St) : List Fld :=
+  [Fld.time_step] ++ (if s.pos.isSome then [Fld.position] else []) ++ (if s.ori.isSome then [Fld.orientation] else []) ++
+    (if s.vel.isSome then [Fld.velocity] else []) ++ (if s.velY.isSome then [Fld.velocity_y] else [])
+
+/-- `a.issubset(b)` on attribute-name sets. -/
+def subsetF (a b : List Fld) : Bool := a.all (fun f => b.contains f)
+
+/-- The guard of `_harmonize_state_types` (goal.py:210-214) on the two name sets. -/
+def harmCond (sf gf : List Fld) : Bool :=
+  (sf.contains Fld.velocity && sf.contains Fld.velocity_y) &&
+  (gf.contains Fld.orientation || gf.contains Fld.velocity) &&
+  !(gf.contains Fld.velocity && gf.contains Fld.velocity_y)
+
+/-- `_harmonize_state_types(state, goal_state, state_fields, goal_state_fields)`: the rewritten state and its name set
+    (goal state and goal name set are returned unchanged). For name sets that do not describe the state (never passed by
+    `is_reached`) `np.array([None, …])` / `atan2(None, …)` raise `TypeError`. -/
+def harmonize (F : Fns) (s : St) (sf gf : List Fld) : Res (St × List Fld) :=
+  if harmCond sf gf then
+    match s.vel, s.velY with
+    | some vx, some vy =>
+      if sf.contains Fld.orientation then
+        -- `state_new.velocity = velocity`; the stored orientation and `velocity_y` stay
+        .ok ({ s with vel := some (F.hyp vx vy) }, sf.filter (· != Fld.velocity_y))
+      else
+        -- point-mass state: a new CustomState without `velocity_y`, heading `atan2(vy, vx)`, speed `hypot(vx, vy)`
+        .ok ({ s with ori := some (F.at2 vy vx), vel := some (F.hyp vx vy), velY := none },
+             (sf ++ [Fld.orientation]).filter (· != Fld.velocity_y))
+    | _, _ => .error .type
+  else .ok (s, sf)
+
+/-- What `_check_value_in_interval` is given as `desired_interval`. -/
+inductive Desired where
+  | interval (i : I)       -- an `Interval`
+  | angle (i : I)          -- an `AngleInterval`
+  | other                  -- anything else (an exact value, `None`, …)
+  deriving Repr
+
+/-- `_check_value_in_interval(value, desired_interval)` (goal.py:136-155): membership by the interval's own `contains`;
+    `ValueError` for anything that is not an interval. -/
+def checkValue (τ ε : Rat) (x : Rat) : Desired → Res Bool
+  | .interval i => .ok (contains i x)
+  | .angle i => .ok (containsAngle τ ε i x)
+  | .other => .error .value
+
+/-- One iteration of the loop in `is_reached`, along the code path: name sets, harmonisation, subset test, four guarded checks. -/
+def reachedOneSteps (F : Fns) (τ ε : Rat) (g : GState) (s : St) : Res Bool :=
+  match harmonize F s s.usedAttrs g.usedAttrs with
+  | .error e => .error e
+  | .ok (s', sf') =>
+    if ¬ subsetF g.usedAttrs sf' then .error .value else
+    let r1 := contains g.time s'.t
+    let r2 := match g.pos, s'.pos with
+      | some sh, some p => sh.contains p
+      | _, _ => true
+    let r3 := match g.ori, s'.ori with
+      | some iv, some θ => containsAngle τ ε iv θ
+      | _, _ => true
+    let r4 := match g.vel, s'.vel with
+      | some iv, some v => contains iv v
+      | _, _ => true
+    .ok (r1 && r2 && r3 && r4)
+
+/-! ### what `GoalRegion(state_list)` accepts as a goal state (`_validate_goal_state`, goal.py:157-197; `state_list` setter, 67-71) -/
+
+/-- The class of an attribute value, as far as `_validate_goal_state` distinguishes (`AngleInterval` is a subclass of `Interval`). -/
+inductive Cls where
+  | interval | angleInterval | shape | other
+  deriving DecidableEq, Repr
+
+/-- A state as handed to `GoalRegion`: attribute name ↦ `None` or the class of the value (absent names: `AttributeError`). -/
+abbrev RawG := List (Fld × Option Cls)
+
+/-- `isinstance(v, C)` for a value of class `c` (`None` is an instance of none of them). -/
+def isInst : Option Cls → Cls → Bool
+  | some .angleInterval, .interval => true
+  | some c, d => c == d
+  | none, _ => false
+
+/-- `state.used_attributes`: the names whose value is not `None`, in attribute order. -/
+def RawG.used (st : RawG) : List Fld := st.filterMap (fun x => if x.2.isSome then some x.1 else none)
+
+/-- `valid_fields` (goal.py:171). -/
+def validFields : List Fld := [Fld.time_step, Fld.position, Fld.velocity, Fld.orientation]
+
+/-- the class `_validate_goal_state` requires of attribute `f`. -/
+def requiredCls : Fld → Cls
+  | .position => .shape
+  | .orientation => .angleInterval
+  | _ => .interval
+
+/-- the loop over `used_attributes` (first offending attribute raises `ValueError`). -/
+def validateLoop (st : RawG) : List Fld → Res Unit
+  | [] => .ok ()
+  | f :: rest =>
+    if !validFields.contains f then .error .value else
+    match st.lookup f with
+    | none => .error .attr
+    | some c => if isInst c (requiredCls f) then validateLoop st rest else .error .value
+
+/-- `_validate_goal_state(state)`. -/
+def validateGoalState (st : RawG) : Res Unit :=
+  match st.lookup Fld.time_step with
+  | none => .error .attr
+  | some none => .error .value
+  | some (some _) => validateLoop st st.used
+
+/-- the loop of the `state_list` setter: every state is validated in order (the first failure is raised). -/
+def validateAll : List RawG → Res Unit
+  | [] => .ok ()
+  | st :: rest =>
+    match validateGoalState st with
+    | .error e => .error e
+    | .ok () => validateAll rest
+
+/-- `GoalRegion.state_list = l`: validate all, then store the list. -/
+def setStateList (l : List RawG) : Res (List RawG) := (validateAll l).map (fun _ => l)
 
 /-! ### `GoalRegion.translate_rotate(t, 0)` (goal.py:123-131 → `State.translate_rotate`, state.py:259-301)
 
@@ -148,6 +283,23 @@ def PolyObj.containsPoint (q : PolyObj) (p : CR.Geom.Pt) : Bool := CR.Geom.inBBo
 /-- `vertices` setter as shipped / as repaired. -/
 def PolyObj.setVertices (q : PolyObj) (vs : List CR.Geom.Pt) : PolyObj := { q with vs := vs }
 def PolyObj.setVerticesR (_q : PolyObj) (vs : List CR.Geom.Pt) : PolyObj := ⟨vs, vs⟩
+
+/-! ### which parts the `translate_rotate` methods move (goal.py:126-134, planning_problem.py:96-105, 187-195)
+
+  Read off the source as a table (moved part, arguments, enclosing loop, where the result is stored; loop variables named v0, v1, …
+  in order of appearance) and compared with these tables on every run (CRProps/T08, `decide`: a finite table checked completely).
+  `GState.translate` / `isReachedMoved` above are what the first table denotes for angle 0: EVERY goal state `i` of the list is
+  replaced by its own moved copy, with the caller's translation and angle. -/
+abbrev MoveRow := String × String × String × String
+def goalRegionMoves : List MoveRow := [("v1", "translation, angle", "enumerate(self.state_list)", "self.state_list[v0]")]
+def goalRegionMoveStmts : String := "For Assign"
+/-- the planning problem moves its initial state (stored back) and its goal region (in place), nothing else. -/
+def planningProblemMoves : List MoveRow :=
+  [("self.initial_state", "translation, angle", "", "self.initial_state"), ("self.goal", "translation, angle", "", "")]
+def planningProblemMoveStmts : String := "Assign Expr"
+/-- the set moves every planning problem of its dictionary. -/
+def planningProblemSetMoves : List MoveRow := [("v0", "translation, angle", "self._planning_problem_dict.values()", "")]
+def planningProblemSetMoveStmts : String := "For Expr"
 
 /-- `PlanningProblem.goal_reached`: scan the per-state answers from the last to the first. -/
 def goalReachedRev : List (Nat × Res Bool) → Res (Bool × Int)
